@@ -29,7 +29,9 @@ Translatable subset (statement level, state-passing style; every Python variable
   x = e; self.X = e; model.X = e; x += <list>; d[k] = e on a dict being built / on `options`; v.combine(w) and
   ans.append(t) on a receiver created in the same function (in-place mutation of anything else stops the translator);
   `for x in xs` / `for Q, y, noise, proj in measurements` -> `List.foldl` over the variables assigned in the body;
-  `if c: x = e [elif ..]` -> `let x := if c then .. else x` (one variable per `if`); tests decided by the variant or by
+  `if c: x = e [elif ..]` -> `let x := if c then .. else x` (one variable existing before the `if` may be re-bound per
+  `if`; names FIRST assigned inside a branch are local to it and must not be read after the `if`; tests may compare
+  `len(..)` / naturals with `>`, `>=`, `<`, `<=`, `==`); tests decided by the variant or by
   typing (`backend == 'torch'`, `self.structural_zeros is not None`) select the branch;
   `if A and hasattr(self, 'model'): S` -> `match A, self.model with | true, some self_model => S | _, _ => skip`
   (`self.model` can only be read under such a guard, after `_setup`, or returned as an `Option`);
@@ -132,6 +134,8 @@ class Tr:
                 return V(f'"{n.value}"', 'str')
             if n.value is None:
                 return V('none', 'none')
+            if type(n.value) is int and n.value >= 0:
+                return V(str(n.value), 'nat')
             fail(n, 'constant outside the subset')
         if isinstance(n, ast.Attribute):
             return self.attribute(n, env)
@@ -261,6 +265,9 @@ class Tr:
                 return V(f'(npArrayT {c.t})', 'idx', fresh=True)
             p = a(0, 'rawproj')
             return V(f'(RawProj.toTuple {p.t})', 'rawproj')
+        if f == 'len' and len(args) == 1:
+            v = a(0, 'cells', 'cliques', 'measlist', 'rawlist', 'clique', 'vec')
+            return V(f'(List.length {v.t})', 'nat')
         if f == 'np.zeros' and len(args) == 1:
             return V(f'(NdArr.const {a(0, "shape").t} Scalar.zero)', 'ndarr', fresh=True)
         if f == 'Factor' and len(args) == 2 and self.where == 'active':
@@ -317,6 +324,11 @@ class Tr:
                     return V(f'({a.t} == {b.t})' if isinstance(op, ast.Eq) else f'({a.t} != {b.t})', 'bool')
                 if {a.ty, b.ty} == {'metric', 'str'}:
                     fail(n, 'comparison of the metric outside the subset')
+            if isinstance(op, (ast.Gt, ast.GtE, ast.Lt, ast.LtE)):
+                a, b = self.expr(l, env), self.expr(r, env)
+                if a.ty == b.ty == 'nat':
+                    sym = {ast.Gt: '>', ast.GtE: '≥', ast.Lt: '<', ast.LtE: '≤'}[type(op)]
+                    return V(f'(decide ({a.t} {sym} {b.t}))', 'bool')
         v = self.expr(n, env) if isinstance(n, (ast.Name, ast.Attribute)) else None
         if v is not None and v.ty == 'bool':
             return v
@@ -345,7 +357,7 @@ class Tr:
             elif isinstance(st, ast.Expr) and isinstance(st.value, ast.Call):
                 self.effect(st.value, env, lines)
             elif isinstance(st, ast.If):
-                self.if_(st, env, lines)
+                self.if_(st, env, lines, stmts[i:])
             elif isinstance(st, ast.For):
                 self.for_(st, env, lines, stmts[i:])
             elif isinstance(st, ast.ImportFrom):
@@ -559,7 +571,7 @@ class Tr:
             return
         fail(c, 'call statement outside the subset')
 
-    def if_(self, st, env, lines):
+    def if_(self, st, env, lines, after=()):
         d = self.static(st.test, env)
         if d is not None:
             lines += self.block(st.body if d else st.orelse, env)
@@ -603,8 +615,12 @@ class Tr:
             e2 = dict(env)
             outs.append((self.block(b, e2), e2))
         ch = sorted({k for _, e2 in outs for k in e2 if (k not in env or e2[k] is not env[k]) and k != '@return'})
-        if any(k not in env for k in ch):
-            fail(st, f'variable first assigned under an `if`: {[k for k in ch if k not in env]}')
+        local = [k for k in ch if k not in env]          # first assigned under the `if`: local to its branch ...
+        for s_ in after:                                  # ... provided nothing after the `if` reads it
+            for nd in ast.walk(s_):
+                if place(nd) in local and isinstance(getattr(nd, 'ctx', None), ast.Load):
+                    fail(nd, f'`{place(nd)}` is first assigned under an `if` and read after it')
+        ch = [k for k in ch if k in env]
         if len(ch) != 1:
             fail(st, f'an `if` must assign exactly one variable, this one assigns {ch}')
         k = ch[0]
